@@ -196,7 +196,7 @@ def pickIdx (res : String) : Option Nat :=
 /-- Oracle on one implementation observation (`pre` = implementation state before the op). -/
 def oracle (cfg : State) (pre : Option State) (op : Option Op) (implRes : String) (implToks : List String) : List String :=
   if implRes.startsWith "panic:" then [s!"C09 panic kind={(implRes.drop 6).toString}"]
-  else if implRes = "dead" ∨ implRes = "nostate" ∨ implRes = "" then []
+  else if implRes = "dead" ∨ implRes = "nostate" ∨ implRes = "" ∨ implRes = "skip" then []
   else
     let post := parseDump cfg implToks
     let inv := (clauses post).filterMap fun (nm, ok) => if ok then none else some s!"C09 invariant clause={nm}"
@@ -240,14 +240,14 @@ def step (st : St) (op implObs : String) : St × String × List String :=
       -- outside the protocol: correspondence only, and the oracle is switched off for the rest of the case
       let st := addTag { st with raw := true } "raw-api-call"
       match r with
-      | .ok (s1, res) => let s1 := normalise s1; ({ st with model := some s1 }, res ++ " " ++ dump s1, [])
+      | .ok (s1, res) => let s1 := normalise s1; ({ st with model := some s1 }, (if res = "skip" then res else res ++ " " ++ dump s1), [])
       | .error m => ({ st with dead := true }, "panic:" ++ panicKind m, [])
     | none =>
     let mop := parseOp toks
     let viol := if st.raw then [] else oracle s st.impl mop implRes itoks
-    let implSt := if implRes.startsWith "panic:" ∨ implRes = "dead" then st.impl else some (parseDump s itoks)
+    let implSt := if implRes.startsWith "panic:" ∨ implRes = "dead" ∨ implRes = "skip" then st.impl else some (parseDump s itoks)
     match mop with
-    | none => ({ st with impl := implSt }, "skip " ++ dump s, viol)
+    | none => ({ st with impl := implSt }, "skip", viol)
     | some o =>
       let outs := Rain.Picker.step false s o
       let st := addTag st ("op:" ++ toks.headD "")
@@ -277,14 +277,14 @@ def step (st : St) (op implObs : String) : St × String × List String :=
           | .wok i false, _ => if (s.pieces i).webseed.isSome then addTag st "branch:wok:truncates-webseed-range" else st
           | _, _ => st
         let st := if s1.endgame then addTag st "branch:endgame" else st
-        ({ st with model := some s1, impl := implSt }, showObs ob ++ " " ++ dump s1, viol)
+        ({ st with model := some s1, impl := implSt }, (if ob = .skip then "skip" else showObs ob ++ " " ++ dump s1), viol)
       | some (.error m) => ({ st with dead := true, impl := implSt }, "panic:" ++ panicKind m, viol)
       | none =>
         match outs with
         | [.ok (s1, ob)] =>
           -- deterministic step: print the model's own answer (the diff shows the disagreement)
           let s1 := normalise s1
-          ({ st with model := some s1, impl := implSt }, showObs ob ++ " " ++ dump s1, viol)
+          ({ st with model := some s1, impl := implSt }, (if ob = .skip then "skip" else showObs ob ++ " " ++ dump s1), viol)
         | [.error m] => ({ st with dead := true, impl := implSt }, "panic:" ++ panicKind m, viol)
         | _ =>
           let choices := " ".intercalate (outs.map showOut)
